@@ -296,8 +296,19 @@ static void gen_params(const char *profile, uint64_t base, long idx)
 }
 
 /* ------------------------------------------------------------------ one run in a forked child */
+/* What the code under test finds in never-written stack slots must not depend on how this process was started (argument
+ * strings, depth of the worker loop): a core function that reads an uninitialised local would otherwise behave differently in
+ * the worker and in a replay.  Everything between this call and the first core function is the same in every invocation. */
+static __attribute__((noinline)) void scrub_stack(void)
+{
+	volatile char pad[768 * 1024];
+	memset((void *)pad, 0, sizeof(pad));
+	__asm__ volatile("" ::"r"(pad) : "memory");
+}
+
 static void child_run(int wfd, const char *replay_out)
 {
+	scrub_stack();
 	g_result_fd = wfd;
 	g_replay_out = replay_out;
 	bool had_trace = G.have_trace;
